@@ -3,6 +3,7 @@ CONSTANTS
   Keys <- SKeys
   Vals <- SVals
   Lens <- SLens
+  LongLens <- LLens
   Versions <- SVersions
   Damages <- SDamages
   Depth = 20
